@@ -138,7 +138,11 @@ class Runner:
             extra["VSHIM_FAULT"] = "inj:%s:%d:%s" % fault
         if alarm is not None:
             # the 24-hour timer expires just before the k-th mutating call, or (k, "after") right after that call was performed
-            extra["VSHIM_SIGNAL"] = ("inj:%d:14:after" % alarm[0]) if isinstance(alarm, tuple) else ("inj:%d:14" % alarm)
+            # a 3-tuple (k, "before"|"after", signo) delivers another signal (SIGTERM: "is killed" at any instant)
+            if isinstance(alarm, tuple) and len(alarm) == 3:
+                extra["VSHIM_SIGNAL"] = "inj:%d:%d%s" % (alarm[0], alarm[2], ":after" if alarm[1] == "after" else "")
+            else:
+                extra["VSHIM_SIGNAL"] = ("inj:%d:14:after" % alarm[0]) if isinstance(alarm, tuple) else ("inj:%d:14" % alarm)
         env = h.env(role="inj", uid=uid, **extra)
         trig = None
         if hold_trigger:
@@ -264,6 +268,10 @@ def judge(r, sc, msg, env, uid, uidclass, rc, pid, t0, t1, events, mode, expect_
                 if e != full:
                     return "image %s (rc=%s): visible envelope differs: %r != %r" % (name, rc, e[:120], full[:120]), reached, {}
     # clause 3: exit status
+    if mode[0] == "term":
+        # killed by a catchable signal at this instant: whatever the program does about it (die from it, exit with a documented status),
+        # only the state it leaves behind is judged - clauses 1, 2 and 4 above
+        return None, reached, {}
     if expect_exit is not None and rc != expect_exit and not (mode[0] == "crash"):
         return "exit status %s, documented %s (mode %s)" % (rc, expect_exit, mode), reached, {}
     if mode[0] == "golden" and rc != code_env:
@@ -334,7 +342,7 @@ def run_input(r, sc, stats, full=True, pick=None):
             hit = any(e["call"] == "CRASH" for e in ev)
         if mode[0] == "fault":
             hit = any(e["a"] and e["a"][-1] in ("FAULT", "SHORT") for e in ev)
-        if mode[0] == "alarm":
+        if mode[0] in ("alarm", "term"):
             hit = any(e["call"] == "SIGNAL" for e in ev)
         stats.case(scenario={"input": sc, "mode": list(mode), "exit": rc}, nontrivial=reached and hit,
                    classes=[icls, "mode_" + mode[0]] + (["exit_%s" % rc] if mode[0] == "golden" else []) +
@@ -361,6 +369,11 @@ def run_input(r, sc, stats, full=True, pick=None):
     # arrived during the call: whatever the program notes down "once the call has returned" is not yet noted (added after seeded change C01-K)
     for k in ks[:-1]:
         plans.append(("alarm_after", k))
+    # "is killed ... at any instant": SIGTERM (catchable, unlike the SIGKILL of the crash sweep - a handler that tidies up must not touch a
+    # message that is already visible) before each mutating call and right after each has been performed (added after seeded change C02-M)
+    for k in ks[:-1]:
+        plans.append(("term", k, "before"))
+        plans.append(("term", k, "after"))
     for cls, k, ev in sites:
         if cls in ("lseek", "stat", "flock", "opendir", "fork", "pipe"):
             continue
@@ -394,6 +407,8 @@ def run_input(r, sc, stats, full=True, pick=None):
             v, _, rc_a = one(("alarm", pl[1]), alarm=pl[1], expect=52)
             if not v and pl[1] % 3 == 0:
                 v, _, rc_a = one(("alarm", pl[1], "inherited_blocked_mask"), alarm=pl[1], expect=52, blocked=True)
+        elif pl[0] == "term":
+            v, _, rc_a = one(("term", pl[1], pl[2]), alarm=(pl[1], pl[2], 15))
         elif pl[0] == "alarm_after":
             v, _, rc_a = one(("alarm", pl[1], "after_the_call"), alarm=(pl[1], "after"), expect=52)
         else:
